@@ -77,6 +77,16 @@ func c07Op(b gofakes3.Backend, op int, body []byte) string {
 			s += c.Key + "=" + c.ETag + ";"
 		}
 		return s
+	case 6: // delete the bucket (succeeds only when it is empty)
+		if err := b.DeleteBucket("bkt"); err != nil {
+			return "delete-bucket-error:" + errCode(err)
+		}
+		return "delete-bucket-ok"
+	case 7: // create the bucket
+		if err := b.CreateBucket("bkt"); err != nil {
+			return "create-bucket-error:" + errCode(err)
+		}
+		return "create-bucket-ok"
 	default: // head k
 		o, err := b.HeadObject("bkt", "k")
 		if err != nil {
@@ -180,7 +190,12 @@ func c07Linearizable(mk func() gofakes3.Backend, tag string) {
 	opsA := make([]int, nA)
 	bodiesA := make([][]byte, nA)
 	for i := range opsA {
-		opsA[i] = vsym.Choice("opA", 6)
+		if vsym.Param("bucketops", 0) == 1 {
+			// client A deletes and/or creates the bucket
+			opsA[i] = 6 + vsym.Choice("opA", 2)
+		} else {
+			opsA[i] = vsym.Choice("opA", 6)
+		}
 		bodiesA[i] = vsym.Bytes("bodyA", 1)
 	}
 	opB := vsym.Choice("opB", 6)
@@ -287,6 +302,20 @@ func c07Linearizable(mk func() gofakes3.Backend, tag string) {
 func VH_C07() {
 	versioned := vsym.Choice("versioned", 2) == 1
 	c07Linearizable(func() gofakes3.Backend { return c07State(versioned) }, "C07")
+}
+
+// VH_C07b: object operations of one client against bucket deletion and
+// re-creation by the other, on a bucket that starts empty (so that the
+// deletion can succeed): an acknowledged write is not lost with the bucket it
+// was looked up in.
+func VH_C07b() {
+	c07Linearizable(func() gofakes3.Backend {
+		b := s3mem.New(s3mem.WithVersionSeed(7))
+		if err := b.CreateBucket("bkt"); err != nil {
+			panic(err)
+		}
+		return b
+	}, "C07b")
 }
 
 // yieldingBody delivers its bytes one at a time and yields to the scheduler
